@@ -84,6 +84,11 @@ class _mpf(mpnumeric):
         if isinstance(x, basestring): return from_str(x, prec, rounding)
         if isinstance(x, cls.context.constant): return x.func(prec, rounding)
         if hasattr(x, '_mpf_'): return x._mpf_
+        if isinstance(x, rational.mpq):
+            p, q = x._mpq_
+            return from_rational(p, q, prec, rounding)
+        if isinstance(x, numbers.Rational): # e.g. Fraction
+            return from_rational(int(x.numerator), int(x.denominator), prec, rounding)
         if hasattr(x, '_mpmath_'):
             t = cls.context.convert(x._mpmath_(prec, rounding))
             if hasattr(t, '_mpf_'):
@@ -102,7 +107,7 @@ class _mpf(mpnumeric):
         if isinstance(x, complex_types): return cls.context.mpc(x)
         if isinstance(x, rational.mpq):
             p, q = x._mpq_
-            return from_rational(p, q, cls.context.prec)
+            return from_rational(p, q, *cls.context._prec_rounding)
         if hasattr(x, '_mpf_'): return x._mpf_
         if hasattr(x, '_mpmath_'):
             t = cls.context.convert(x._mpmath_(*cls.context._prec_rounding))
@@ -652,7 +657,7 @@ class PythonMPContext(object):
         prec, rounding = ctx._prec_rounding
         if isinstance(x, rational.mpq):
             p, q = x._mpq_
-            return ctx.make_mpf(from_rational(p, q, prec))
+            return ctx.make_mpf(from_rational(p, q, prec, rounding))
         if strings and isinstance(x, basestring):
             try:
                 _mpf_ = from_str(x, prec, rounding)
